@@ -499,6 +499,16 @@ def r5(ctx: Ctx) -> None:
                 ctx.check(not probs, nested, nested.node, f"{nested.qualname} leaves the caller's settings untouched", "no store/del/mutator on, and no mutating callee for, anything reachable from self.settings",
                           "; ".join(probs[:3]) if probs else "no mutation of tainted objects")
     ctx.require(n >= 8, "fewer runner methods analysed than exist")
+    # the group settings handed to setup() are shallow copies: lists and dicts nested in them are
+    # still the caller's objects, so no setup implementation may change what its settings reach
+    ns = 0
+    for g0 in ctx.program.all_functions():
+        if g0.name != "setup" or g0.cls is None or "settings" not in g0.params:
+            continue
+        ns += 1
+        mp0 = _mutated_params(ctx, g0)
+        ctx.check("settings" not in mp0, g0, g0.node, f"{g0.qualname} leaves the settings it is given untouched", "no store/del/mutator on anything reachable from `settings`", mp0.get("settings", "no mutation"))
+    ctx.require(ns >= 8, "fewer setup(settings) implementations than confirmed by reading")
     # the constructor stores the caller's dict itself (so the above taint source is the right one)
     f = ctx.func("Runner.__init__")
     st = [e for pa in ctx.paths(f.qualname) for e in pa.walk_events() if e.kind == "store" and e.attr == "settings"]
